@@ -75,6 +75,8 @@ func c07(p *core.Prog, r *core.Report) {
 	// relayed call keeps the connection in a closing state forever.
 	r.Rule("C07-R7", "E6 who-may-call/paths", 6, "relay pending count (drain predicate input) is balanced")
 	channelTracksOnlyOpen(p, r, "C07-R5")
+	// in-flight calls complete while closing: an error answer is queued before the call's exchange is completed
+	errorFrameBeforeCompletion(p, r, "C07-R4")
 	r.Alias("C09-R3", "C07-R7")
 	c09Pending(p, r)
 	r.Alias("C09-R3", "")
@@ -752,8 +754,20 @@ func c07Admission(p *core.Prog, r *core.Report) {
 			ok := nx[0].Block().Dominates(last.Block()) && !leak.Found
 			r.Check(ok, "C07-R5", fname(f), "state re-read after newExchange, exchange shut down on refusal", p.Pos(last.Pos()),
 				"re-check is after registration and shuts the exchange down before failing", "re-check missing, or refusal path leaves the exchange registered")
+		} else if len(nx) == 1 {
+			// the state must be observed again after the exchange is registered
+			// (a Close that lands between the first check and the registration
+			// would otherwise hand out a call on a connection that is closing)
+			after := false
+			for _, c := range calls {
+				if nx[0].Block().Dominates(c.Block()) && before(nx[0], c) {
+					after = true
+				}
+			}
+			r.Check(after, "C07-R5", fname(f), "state re-read after newExchange, exchange shut down on refusal", p.Pos(nx[0].Pos()),
+				"a readState() follows the registration", "the connection state is not read again after the exchange is registered: a Close in between goes unnoticed and the call is handed out on a closing connection")
 		} else {
-			r.Errorf("beginCall: expected two state observations around newExchange (found %d, %d newExchange)", len(calls), len(nx))
+			r.Errorf("beginCall: expected one newExchange call (found %d)", len(nx))
 		}
 	}
 
